@@ -122,6 +122,19 @@ def build(S, name, inc, disp, disp2, cfg):
                    compiler=comp, includes=[inc], deps=[disp, disp2], name="c10-%s-%s-%s" % (name, comp, std))
 
 
+def run_replay(binary, name, vec):
+    """The code under test runs in the harness process; a stray write can damage the
+    harness itself.  A run whose output cannot be parsed is repeated once; if that
+    repeats it is an infrastructure error, never a verdict."""
+    err = None
+    for attempt in (1, 2):
+        try:
+            return vlib.run_harness(binary, ["replay", name, vec], timeout=1500)
+        except (ValueError, vlib.InfraError) as ex:
+            err = ex
+    raise vlib.InfraError("harness %s: %s" % (os.path.basename(binary), str(err)[-2000:]))
+
+
 def sample_vector(path):
     """one logical (image, n, operation) vector, written out"""
     img, out = None, None
@@ -242,7 +255,7 @@ def run(v, tier, seed):
         elif p[1] in vecfiles:
             runs.append((p[1], cfg, out))
     t1 = time.time()
-    results = vlib.parallel(runs, lambda r: vlib.run_harness(r[2], ["replay", r[0], vecfiles[r[0]]], timeout=1500), nproc=NPROC)
+    results = vlib.parallel(runs, lambda r: run_replay(r[2], r[0], vecfiles[r[0]]), nproc=NPROC)
     v.part("timing", tlc_phase_s=round(t_tlc, 1), tlc_and_compile_phase_s=round(t_build, 1), replay_phase_s=round(time.time() - t1, 1))
     evals = replayed = 0
     per_class = {}
